@@ -1,6 +1,7 @@
 import ZarrsModel.Model.ShardPDAsync
 import ZarrsModel.Model.WriteMapShard
 import ZarrsModel.Lemmas.ShardPDAsync2
+import ZarrsModel.Lemmas.ShardPDAsync3
 import ZarrsModel.Props.C02Shard
 set_option Elab.async false
 set_option maxRecDepth 8000
@@ -16,7 +17,7 @@ not-stored items afterwards, into an uninitialised buffer):
   fails on the whole inner chunk — such values are outside the agreement theorem (no history of the API produces them);
 * the views the async decoder writes tile the region's buffer; the seeded mispairing does not; the seeded
   "validation dropped" variant returns data where the real decoder errs.
-Helper lemmas: Lemmas/ShardPDAsync{,2}.lean.
+Helper lemmas: Lemmas/ShardPDAsync{,2,3}.lean.
 -/
 namespace Zarrs.C07S
 open Zarrs Zarrs.Codec Zarrs.Partial Zarrs.C02
@@ -97,6 +98,103 @@ example : asyncShardPD exCfg true [4, 4] [2, 2] 2 exFill (some 8) exInner.partia
     asyncShardPD exCfg true [4, 4] [2, 2] 2 exFill (some 8) exInner.partialDecoder (storeHandle (some exValue)) exRegions =
       some (exRegions.map (fun r => r.extract [4, 4] exShard)) := by decide
 
+/-! #### ALL hypotheses of `asyncShardPD_eq_shardPD` / `asyncShardPD_ok` instantiated (also `hx`, `hinner`, `hfixed`)
+on the shard with the index at the END (with crc32c): stored inner chunks (0,0), (1,0), (1,1), not-stored (0,1) -/
+
+private theorem exPieces_val : exPieces =
+    [[[0, 100], [1, 101], [4, 104], [5, 105]], [[7, 7], [7, 7], [7, 7], [7, 7]],
+     [[8, 108], [9, 109], [12, 112], [13, 113]], [[10, 110], [11, 111], [14, 114], [15, 115]]] := by decide
+private theorem exChunks_val : exChunks =
+    [some [0, 100, 1, 101, 4, 104, 5, 105], none, some [8, 108, 9, 109, 12, 112, 13, 113],
+     some [10, 110, 11, 111, 14, 114, 15, 115]] := by decide
+
+/-- `hx`: the stored inner chunks are the encodings of the pieces of the shard, the not-stored one stands for fill -/
+private theorem ex_hx : ∀ i (_ : i < exChunks.length) (h2 : i < exPieces.length),
+    match exChunks[i] with
+    | some b => exEncodes exPieces[i] b ∧ chunkOk 2 [2, 2] exPieces[i]
+    | none => exPieces[i] = List.replicate (prod [2, 2]) exFill := by
+  intro i _ h2
+  have h4 : i < 4 := h2
+  have : i = 0 ∨ i = 1 ∨ i = 2 ∨ i = 3 := by omega
+  rcases this with rfl | rfl | rfl | rfl <;>
+    simp only [exChunks_val, exPieces_val, List.getElem_cons_zero, List.getElem_cons_succ]
+  · exact ⟨⟨by decide, by decide, by decide⟩, by decide, by decide⟩
+  · decide
+  · exact ⟨⟨by decide, by decide, by decide⟩, by decide, by decide⟩
+  · exact ⟨⟨by decide, by decide, by decide⟩, by decide, by decide⟩
+
+/-- `hinner`: the inner chain's partial decoder is lawful on every handle serving an encoding (`C02.bytesPD_ok`) -/
+private theorem ex_hinner : ∀ g b xs, exEncodes xs b → BHandleOk g b →
+    AHandleOk (exInner.partialDecoder [2, 2] exFill g) [2, 2] xs := by
+  intro g b xs ⟨hb, hx⟩ hg
+  subst hb
+  rw [partialDecoder_eq]
+  rw [encode_eq] at hg
+  exact bytesPD_ok' false 2 2 [2, 2] exFill g xs (by decide) (by decide) (by decide) hx.1 hx.2 hg
+
+/-- `hfixed`: every encoding has the size the inner chain declares (8 bytes) -/
+private theorem ex_hfixed : ∀ n, exInner.fixedSize [] [2, 2] = some n → ∀ xs b, exEncodes xs b → b.length = n := by
+  intro n hn xs b ⟨hb, hx⟩
+  subst hb
+  exact chain_encode_length exInner [] [2, 2] xs n (by decide) (by decide) hx.1 hx.2 trivial trivial hn
+
+private def exCfgE : Shard.Cfg := ⟨4, true, false, true⟩
+private def exValueE : Bytes := Shard.encode exCfgE exChunks
+/-- the first region overlaps the stored inner chunk (0,0) and the NOT-stored (0,1) only; the second meets all four;
+then the not-stored chunk alone, and the whole shard -/
+private def exRegionsE : List Subset := [⟨[0, 1], [2, 2]⟩, ⟨[1, 1], [2, 2]⟩, ⟨[0, 2], [2, 2]⟩, ⟨[0, 0], [4, 4]⟩]
+
+example : exValueE.length = 24 + 68 := by decide
+example : shardIndexPD exCfgE true [4, 4] [2, 2] (storeHandle (some exValueE)) =
+    some (some [(0, 8), (Shard.sentinel, Shard.sentinel), (8, 8), (16, 8)]) := by decide
+example : exInner.fixedSize [] [2, 2] = some 8 := by decide
+
+/-- the theorem applied: every hypothesis of `asyncShardPD_eq_shardPD` discharged on the index-at-end shard -/
+example :
+    asyncShardPD exCfgE true [4, 4] [2, 2] 2 exFill (exInner.fixedSize [] [2, 2]) exInner.partialDecoder
+        (storeHandle (some exValueE)) exRegionsE =
+      shardPD exCfgE true [4, 4] [2, 2] 2 exFill (exInner.fixedSize [] [2, 2]) exInner.partialDecoder
+        (storeHandle (some exValueE)) exRegionsE ∧
+    shardPD exCfgE true [4, 4] [2, 2] 2 exFill (exInner.fixedSize [] [2, 2]) exInner.partialDecoder
+        (storeHandle (some exValueE)) exRegionsE =
+      some (exRegionsE.map (fun r => r.extract [4, 4] (assemble [4, 4] [2, 2] exPieces))) :=
+  asyncShardPD_eq_shardPD exCfgE true [4, 4] [2, 2] 2 exFill (exInner.fixedSize [] [2, 2]) exInner.partialDecoder
+    exEncodes (storeHandle (some exValueE)) exValueE exChunks exPieces (by decide) (by decide) (by decide)
+    (storeHandle_some_ok _) (Shard.shard_legal exCfgE exChunks (by decide) (by decide)) (by decide) ex_hx ex_hinner
+    ex_hfixed exRegionsE (by decide)
+
+/-- … and evaluated: the assembled pieces are the shard; the answer of both decoders, element by element (the first
+region: column 1 of the stored chunk (0,0) beside column 2 — fill — of the not-stored chunk (0,1)) -/
+example : assemble [4, 4] [2, 2] exPieces = exShard := by decide
+example : asyncShardPD exCfgE true [4, 4] [2, 2] 2 exFill (some 8) exInner.partialDecoder (storeHandle (some exValueE))
+      exRegionsE =
+    some [[[1, 101], [7, 7], [5, 105], [7, 7]], [[5, 105], [7, 7], [9, 109], [10, 110]],
+      [[7, 7], [7, 7], [7, 7], [7, 7]], exShard] ∧
+    shardPD exCfgE true [4, 4] [2, 2] 2 exFill (some 8) exInner.partialDecoder (storeHandle (some exValueE))
+      exRegionsE =
+    some [[[1, 101], [7, 7], [5, 105], [7, 7]], [[5, 105], [7, 7], [9, 109], [10, 110]],
+      [[7, 7], [7, 7], [7, 7], [7, 7]], exShard] := by decide
+
+/-- `asyncShardPD_ok` applied to the same shard (all hypotheses discharged): the async decoder over the stored value
+is a handle serving the 4×4 array `exShard` -/
+example : AHandleOk (asyncShardPD exCfgE true [4, 4] [2, 2] 2 exFill (exInner.fixedSize [] [2, 2])
+    exInner.partialDecoder (storeHandle (some exValueE))) [4, 4] exShard := by
+  have h := asyncShardPD_ok exCfgE true [4, 4] [2, 2] 2 exFill (exInner.fixedSize [] [2, 2]) exInner.partialDecoder
+    exEncodes (storeHandle (some exValueE)) exValueE exChunks exPieces (by decide) (by decide) (by decide)
+    (storeHandle_some_ok _) (Shard.shard_legal exCfgE exChunks (by decide) (by decide)) (by decide) ex_hx ex_hinner
+    ex_hfixed
+  have he : assemble [4, 4] [2, 2] exPieces = exShard := by decide
+  rw [he] at h
+  exact h
+
+/-- … also of the index-at-start shard of the running example -/
+example : AHandleOk (asyncShardPD exCfg true [4, 4] [2, 2] 2 exFill (exInner.fixedSize [] [2, 2])
+    exInner.partialDecoder (storeHandle (some exValue))) [4, 4] (assemble [4, 4] [2, 2] exPieces) :=
+  asyncShardPD_ok exCfg true [4, 4] [2, 2] 2 exFill (exInner.fixedSize [] [2, 2]) exInner.partialDecoder
+    exEncodes (storeHandle (some exValue)) exValue exChunks exPieces (by decide) (by decide) (by decide)
+    (storeHandle_some_ok _) (Shard.shard_legal exCfg exChunks (by decide) (by decide)) (by decide) ex_hx ex_hinner
+    ex_hfixed
+
 /-- **an absent value reads as fill for both decoders** -/
 theorem asyncShardPD_absent_eq (cfg : Shard.Cfg) (validate : Bool) (shard inner : Shape) (es : Nat) (fill : Elem)
     (fixed : Option Nat) (innerPD : Shape → Elem → BHandle → AHandle) (h : BHandle)
@@ -112,6 +210,15 @@ theorem asyncShardPD_absent_eq (cfg : Shard.Cfg) (validate : Bool) (shard inner 
 example : Partial.tiles [2, 2] [4, 4] = true ∧ BHandleAbsent (storeHandle none) ∧
     ∀ r ∈ exRegions, r.wf = true ∧ r.rank = [4, 4].length := ⟨by decide, storeHandle_none_absent, by decide⟩
 example : asyncShardPD exCfg true [4, 4] [2, 2] 2 exFill (some 8) exInner.partialDecoder (storeHandle none) exRegions =
+    some [List.replicate 4 [7, 7], List.replicate 8 [7, 7], [], List.replicate 16 [7, 7]] := by decide
+/-- the theorem applied (both decoders, whatever the configuration, the inner chain and the declared size) -/
+example : asyncShardPD exCfgE false [4, 4] [2, 2] 2 exFill none exInner.partialDecoder (storeHandle none) exRegions =
+      some (exRegions.map (fun r => List.replicate r.numElements exFill)) ∧
+    shardPD exCfgE false [4, 4] [2, 2] 2 exFill none exInner.partialDecoder (storeHandle none) exRegions =
+      some (exRegions.map (fun r => List.replicate r.numElements exFill)) :=
+  asyncShardPD_absent_eq exCfgE false [4, 4] [2, 2] 2 exFill none exInner.partialDecoder (storeHandle none)
+    (by decide) storeHandle_none_absent exRegions (by decide)
+example : shardPD exCfg true [4, 4] [2, 2] 2 exFill (some 8) exInner.partialDecoder (storeHandle none) exRegions =
     some [List.replicate 4 [7, 7], List.replicate 8 [7, 7], [], List.replicate 16 [7, 7]] := by decide
 
 /-! ### corrupted index entries: the class of error agrees -/
@@ -186,6 +293,25 @@ theorem validation_dropped_returns_data :
 example : ∀ fill ish ipd h r q, asyncDecodeStoredNoCheck fill ish ipd h r q = asyncDecodeStored none fill ish ipd h r q :=
   fun _ _ _ _ _ _ => rfl
 
+/-- the REAL decoder on the same input satisfies the property the seeded variant violates:
+`asyncShardPD_error_agrees_on_entries`, case (1), APPLIED to the request of `validation_dropped_returns_data` with the
+size the inner chain declares — an error for the async and for the sync decoder -/
+example :
+    asyncShardPD exCfg true [4, 4] [2, 2] 2 exFill (exInner.fixedSize [] [2, 2]) exInner.partialDecoder
+      (storeHandle (some exBadValue)) [⟨[2, 0], [1, 1]⟩] = none ∧
+    shardPD exCfg true [4, 4] [2, 2] 2 exFill (exInner.fixedSize [] [2, 2]) exInner.partialDecoder
+      (storeHandle (some exBadValue)) [⟨[2, 0], [1, 1]⟩] = none :=
+  asyncShardPD_error_agrees_on_entries exCfg true [4, 4] [2, 2] 2 exFill (exInner.fixedSize [] [2, 2])
+    exInner.partialDecoder (storeHandle (some exBadValue)) exBadValue exBadEntries (by decide) (by decide)
+    [⟨[2, 0], [1, 1]⟩] ⟨[2, 0], [1, 1]⟩ (List.mem_singleton.mpr rfl) (by decide) (by decide) [2, 0] (by decide) 72 9
+    (by decide) (by decide) (Or.inl ⟨8, by decide, by decide⟩)
+/-- the seeded variant cannot be put through that theorem (its `fixed` is `none`: case (1) has no witness), and on
+the LEGAL value the test it drops changes nothing: there the two coincide (= the regions of the shard) -/
+example : ¬ ∃ n, (none : Option Nat) = some n ∧ 9 ≠ n := fun ⟨_, h, _⟩ => by cases h
+example : asyncShardPD exCfg true [4, 4] [2, 2] 2 exFill none exInner.partialDecoder (storeHandle (some exValue)) exRegions =
+    asyncShardPD exCfg true [4, 4] [2, 2] 2 exFill (exInner.fixedSize [] [2, 2]) exInner.partialDecoder
+      (storeHandle (some exValue)) exRegions := by decide
+
 /-! ### the observation: truncated shards are outside the agreement -/
 
 /-- the example value with its last byte removed: the index (at the start) is intact, the last stored inner chunk
@@ -258,5 +384,139 @@ theorem mispairing_breaks_tiling :
     (asyncWritesMispaired (some 8) exFill [2, 2] [2, 2] exEntries exInner.partialDecoder (storeHandle (some exValue))
       ⟨[0, 0], [4, 4]⟩).map (fun ws => applyViewWrites [4, 4] ws (List.replicate 16 [0, 0])) ≠ some exShard := by
   decide
+
+/-- the REAL decoder on the same input satisfies the property the seeded mispairing violates: `asyncShardPD_tiles`
+APPLIED to the region of `mispairing_breaks_tiling` (the whole shard): whatever writes `asyncWrites` produces, their
+views tile the 32 bytes of the region's buffer -/
+example : ∀ ws, asyncWrites (some 8) 2 exFill [2, 2] [2, 2] exEntries exInner.partialDecoder
+      (storeHandle (some exValue)) ⟨[0, 0], [4, 4]⟩ = some ws →
+    Zarrs.tiles ((Subset.mk [0, 0] [4, 4]).numElements * 2)
+      ((asyncViews ws).flatMap (fun v => v.byteRanges (Subset.mk [0, 0] [4, 4]).shape 2)) = true :=
+  fun ws hws => asyncShardPD_tiles (some 8) 2 exFill [2, 2] [2, 2] exEntries exInner.partialDecoder
+    (storeHandle (some exValue)) ⟨[0, 0], [4, 4]⟩ (by decide) (by decide) (by decide) ws hws
+/-- … and evaluated: the writes exist, each of the two views the seeded variant gets wrong is written exactly once,
+and the assembled region is the shard whatever the uninitialised buffer held (two different `junk`s) -/
+example :
+    (asyncWrites (some 8) 2 exFill [2, 2] [2, 2] exEntries exInner.partialDecoder (storeHandle (some exValue))
+      ⟨[0, 0], [4, 4]⟩).isSome = true ∧
+    ((asyncWrites (some 8) 2 exFill [2, 2] [2, 2] exEntries exInner.partialDecoder (storeHandle (some exValue))
+      ⟨[0, 0], [4, 4]⟩).map (fun ws => ((asyncViews ws).count ⟨[0, 2], [2, 2]⟩, (asyncViews ws).count ⟨[2, 2], [2, 2]⟩))) =
+      some (1, 1) ∧
+    (asyncWrites (some 8) 2 exFill [2, 2] [2, 2] exEntries exInner.partialDecoder (storeHandle (some exValue))
+      ⟨[0, 0], [4, 4]⟩).map (fun ws => applyViewWrites [4, 4] ws (List.replicate 16 [0, 0])) = some exShard ∧
+    asyncShardRegionFrom (List.replicate 16 [0, 0]) (some 8) 2 exFill [2, 2] [2, 2] exEntries exInner.partialDecoder
+      (storeHandle (some exValue)) ⟨[0, 0], [4, 4]⟩ = some exShard ∧
+    asyncShardRegionFrom ((List.range 16).map (fun i => [200 + i, 99])) (some 8) 2 exFill [2, 2] [2, 2] exEntries
+      exInner.partialDecoder (storeHandle (some exValue)) ⟨[0, 0], [4, 4]⟩ = some exShard := by decide
+
+/-! ### chains whose array-to-bytes codec is `sharding_indexed`, nested to any depth: the ASYNC decoder of the chain -/
+
+private theorem okWith_lemma (c : ChainS) (sh : Shape) (fill : Elem) (h : C02S.chainSOk c sh fill) :
+    c.okWith aOk BLaw sh fill :=
+  ChainS.okWith_mono (fun l s hl => aStagesOk_aOk l s hl) (fun st hst b g hg => bStage_ok st hst b g hg) c sh fill h
+
+/-- **C02 for the ASYNC partial decoder of chains with sharding codecs** (the twin of
+`C02S.chainS_partial_eq_full_slice`, same hypotheses): array-to-array stages, then `sharding_indexed` whose inner chain
+is again such a chain (or a `bytes` chain), then bytes-to-bytes stages, every sharding level decoded by
+`AsyncShardingPartialDecoder` over the async decoder of its inner chain (`ChainS.asyncPartialDecoder`); on ANY handle
+serving the chain's encoding of the chunk `xs`, the chain's async partial decoder answers every in-bounds list of
+regions with exactly the regions of `xs`.  Any nesting depth. -/
+theorem chainS_async_partial_eq_full_slice (c : ChainS) (sh : Shape) (fill : Elem) (xs : List Elem)
+    (hok : C02S.chainSOk c sh fill) (hx : chunkOk c.es sh xs) (hfits : c.fits sh fill xs)
+    (g : BHandle) (hg : BHandleOk g (c.encode sh fill xs)) :
+    AHandleOk (c.asyncPartialDecoder sh fill g) sh xs :=
+  chainS_async_ok c sh fill xs (okWith_lemma c sh fill hok) hx.1 hx.2 hfits g hg
+
+/-- … and an absent value reads as fill through the async decoder of such a chain -/
+theorem chainS_async_partial_absent (c : ChainS) (sh : Shape) (fill : Elem) (hok : C02S.chainSOk c sh fill)
+    (g : BHandle) (hg : BHandleAbsent g) :
+    AHandleOk (c.asyncPartialDecoder sh fill g) sh (List.replicate (prod sh) fill) :=
+  chainS_async_absent c sh fill (okWith_lemma c sh fill hok) g hg
+
+/-- **the async decoder of a (nested) chain agrees with the sync decoder** on every handle serving an encoding of the
+chain, for every in-bounds region list: both return the regions of the chunk -/
+theorem chainS_async_eq_sync (c : ChainS) (sh : Shape) (fill : Elem) (xs : List Elem)
+    (hok : C02S.chainSOk c sh fill) (hx : chunkOk c.es sh xs) (hfits : c.fits sh fill xs)
+    (g : BHandle) (hg : BHandleOk g (c.encode sh fill xs))
+    (rs : List Subset) (hrs : ∀ r ∈ rs, r.wf = true ∧ r.inboundsShape sh = true) :
+    c.asyncPartialDecoder sh fill g rs = c.partialDecoder sh fill g rs ∧
+    c.partialDecoder sh fill g rs = some (rs.map (fun r => r.extract sh xs)) := by
+  have hs := C02S.chainS_partial_eq_full_slice c sh fill xs hok hx hfits g hg rs hrs
+  have ha := chainS_async_partial_eq_full_slice c sh fill xs hok hx hfits g hg rs hrs
+  exact ⟨ha.trans hs.symm, hs⟩
+
+/-- … and on an absent value (both: fill) -/
+theorem chainS_async_eq_sync_absent (c : ChainS) (sh : Shape) (fill : Elem) (hok : C02S.chainSOk c sh fill)
+    (g : BHandle) (hg : BHandleAbsent g)
+    (rs : List Subset) (hrs : ∀ r ∈ rs, r.wf = true ∧ r.inboundsShape sh = true) :
+    c.asyncPartialDecoder sh fill g rs = c.partialDecoder sh fill g rs ∧
+    c.partialDecoder sh fill g rs = some (rs.map (fun r => r.extract sh (List.replicate (prod sh) fill))) := by
+  have hs := C02S.chainS_partial_absent c sh fill hok g hg rs hrs
+  have ha := chainS_async_partial_absent c sh fill hok g hg rs hrs
+  exact ⟨ha.trans hs.symm, hs⟩
+
+/-- two sharding levels under a transpose and over a crc32c (the chain of `C02Shard.lean`): 4×4 chunks, transposed,
+cut into 2×2 shards-in-the-shard (index at the start, big-endian, no checksum), each cut into 1×2 innermost chunks
+(index at the end, crc32c), whose chain is transpose + big-endian `bytes` + crc32c.  In `exShard` the block rows 0-1 ×
+columns 2-3 is all fill: after the transpose a whole 2×2 inner shard is NOT stored at the outer level, and the async
+decoder of the outer level runs the async decoder of the inner level on the three stored ones. -/
+private def exLeaf : Chain := { a2a := [.transpose [1, 0]], big := true, es := 2, unit := 2, b2b := [.stripSuffix 4 crc32c] }
+private def exNested : ChainS :=
+  .shard [.transpose [1, 0]] ⟨0, false, true, false⟩ [2, 2] 2
+    (.shard [] ⟨0, true, false, true⟩ [1, 2] 2 (.leaf exLeaf []) []) [.stripSuffix 4 crc32c]
+
+private theorem exNested_ok : C02S.chainSOk exNested [4, 4] exFill := by
+  refine ⟨⟨by decide, trivial⟩, by decide, ?_, by decide, rfl, ⟨trivial, by decide, ?_, by decide, rfl,
+    ⟨by decide, by decide, by decide, ⟨by decide, trivial⟩, ?_, ⟨trivial, trivial⟩⟩⟩⟩
+  · intro st hst
+    simp only [List.mem_singleton] at hst
+    subst hst; rfl
+  · intro st hst
+    cases hst
+  · intro st hst
+    simp only [exLeaf, List.mem_singleton] at hst
+    subst hst; rfl
+
+private theorem exNested_fits : exNested.fits [4, 4] exFill exShard := by
+  simp only [exNested, ChainS.fits]
+  decide
+
+/-- the hypotheses hold of the nested chain, the chunk `exShard` and the regions of the running example -/
+example : C02S.chainSOk exNested [4, 4] exFill ∧ chunkOk exNested.es [4, 4] exShard ∧ exNested.fits [4, 4] exFill exShard ∧
+    BHandleOk (storeHandle (some (exNested.encode [4, 4] exFill exShard))) (exNested.encode [4, 4] exFill exShard) ∧
+    (∀ r ∈ exRegions, r.wf = true ∧ r.inboundsShape [4, 4] = true) :=
+  ⟨exNested_ok, ⟨by decide, by decide⟩, exNested_fits, storeHandle_some_ok _, by decide⟩
+
+/-- the theorems applied -/
+example : AHandleOk (exNested.asyncPartialDecoder [4, 4] exFill (storeHandle (some (exNested.encode [4, 4] exFill exShard))))
+    [4, 4] exShard :=
+  chainS_async_partial_eq_full_slice exNested [4, 4] exFill exShard exNested_ok ⟨by decide, by decide⟩ exNested_fits _
+    (storeHandle_some_ok _)
+example :
+    exNested.asyncPartialDecoder [4, 4] exFill (storeHandle (some (exNested.encode [4, 4] exFill exShard))) exRegions =
+      exNested.partialDecoder [4, 4] exFill (storeHandle (some (exNested.encode [4, 4] exFill exShard))) exRegions ∧
+    exNested.partialDecoder [4, 4] exFill (storeHandle (some (exNested.encode [4, 4] exFill exShard))) exRegions =
+      some (exRegions.map (fun r => r.extract [4, 4] exShard)) :=
+  chainS_async_eq_sync exNested [4, 4] exFill exShard exNested_ok ⟨by decide, by decide⟩ exNested_fits _
+    (storeHandle_some_ok _) exRegions (by decide)
+
+/-- … and the conclusions evaluated: the async decoder of the nested chain run on the stored value (224 bytes) -/
+example : (exNested.encode [4, 4] exFill exShard).length = 224 := by decide
+example : exNested.asyncPartialDecoder [4, 4] exFill (storeHandle (some (exNested.encode [4, 4] exFill exShard))) exRegions =
+    some (exRegions.map (fun r => r.extract [4, 4] exShard)) := by decide +kernel
+example : exRegions.map (fun r => r.extract [4, 4] exShard) =
+    [[[5, 105], [7, 7], [9, 109], [10, 110]],
+     [[1, 101], [7, 7], [5, 105], [7, 7], [9, 109], [10, 110], [13, 113], [14, 114]], [],
+     exShard] := by decide
+
+/-- the absent value: hypotheses, the theorems applied, the conclusion evaluated -/
+example : C02S.chainSOk exNested [4, 4] exFill ∧ BHandleAbsent (storeHandle none) := ⟨exNested_ok, storeHandle_none_absent⟩
+example : exNested.asyncPartialDecoder [4, 4] exFill (storeHandle none) exRegions =
+      exNested.partialDecoder [4, 4] exFill (storeHandle none) exRegions ∧
+    exNested.partialDecoder [4, 4] exFill (storeHandle none) exRegions =
+      some (exRegions.map (fun r => r.extract [4, 4] (List.replicate (prod [4, 4]) exFill))) :=
+  chainS_async_eq_sync_absent exNested [4, 4] exFill exNested_ok _ storeHandle_none_absent exRegions (by decide)
+example : exNested.asyncPartialDecoder [4, 4] exFill (storeHandle none) exRegions =
+    some [List.replicate 4 [7, 7], List.replicate 8 [7, 7], [], List.replicate 16 [7, 7]] := by decide
 
 end Zarrs.C07S
